@@ -386,11 +386,15 @@ func (p *Proxy) handleConnectRequest(ctx *Context, req *http.Request, session *S
 			// connection, and that is what a hijacker is handed.
 			session.setConn(nconn, brw)
 			session.setTunnelHost(req.Host)
+			// The CONNECT exchange is over: its context is not retrievable while the
+			// requests inside the tunnel are handled.
+			unlink(req)
 			return p.handle(ctx, nconn, brw)
 		}
 
 		// Prepend the previously read data to be read again by http.ReadRequest.
 		brw.Reader.Reset(io.MultiReader(bytes.NewReader(b), bytes.NewReader(buf), conn))
+		unlink(req)
 		return p.handle(ctx, conn, brw)
 	}
 
